@@ -216,7 +216,8 @@ def run(ctx):
     # XChaCha datagram nonces: in the 2022 packet encoders a fill call dominated by `nonce_size > 0`
     for b in bodies:
         if b.root == b.defp and (b.impl_self_def or "").endswith("codec::shadowsocks::udp::AEADCipherCodec") and b.method in ("encode_client_packet_aead_2022", "encode_server_packet_aead_2022"):
-            fills = [(blk, c, t) for (blk, c, t) in b.calls() if is_csprng_call(prog, c) and c.target.endswith("fill_bytes")]
+            fb_ = prog.flat(b.defp)
+            fills = [(blk, c, t) for (blk, c, t) in fb_.calls() if is_csprng_call(prog, c) and c.target.endswith("fill_bytes")]
             ctx.ob("N1", b.defp, "xchacha-nonce:from-csprng", loc(b.sp), len(fills) >= 1, "the datagram nonce prefix is filled from the CSPRNG" if fills else "the datagram nonce prefix is not filled from the CSPRNG")
 
     # ---------------- N2 one generator step per AEAD call ----------------------------------------
@@ -225,8 +226,12 @@ def run(ctx):
     def is_prim(c):
         return (c.impl_self and (c.impl_self.get("d") or "").endswith("codec::aead::CipherMethod") and c.method in PRIMS)
 
+    # role: a nonce generator step = a `&mut self` method of a *NonceGenerator type that returns the nonce (whatever it is called)
+    gen_paths = {b.defp for b in bodies if "NonceGenerator" in (b.impl_self_def or "") and b.root == b.defp and b.argc >= 1
+                 and b.local_ty(1).startswith("&mut") and "NonceGenerator" in b.local_ty(1) and "[u8]" in b.local_ty(0)}
+
     def is_gen(c):
-        return c.method == "generate" and c.impl_self and ("NonceGenerator" in (c.impl_self.get("d") or ""))
+        return c.target in gen_paths
 
     auths = [b for b in bodies if last_seg(b.impl_self_def or "") == "Authenticator" and any(is_prim(c) for (_, c, _) in b.calls())]
     ctx.floor("N2", "Authenticator functions calling an AEAD primitive", 5, len(auths))
@@ -256,13 +261,19 @@ def run(ctx):
                 ctx.ob("N2", b.defp, f"primitive-outside-authenticator:{c.method}", loc(t["sp"]), allowed,
                        "datagram codec calls the primitive with a per-packet nonce" if allowed else "a stream codec calls an AEAD primitive directly, bypassing the nonce generator")
     # generators advance on every step
-    gens = [b for b in bodies if "NonceGenerator" in (b.impl_self_def or "") and b.method == "generate"]
+    gens = [b for b in bodies if b.defp in gen_paths]
     ctx.floor("N2", "nonce generators", 2, len(gens))
     for b in gens:
         writes = False
         for blk in b.rpo():
             for s in b.stmts(blk):
-                if s["k"] == "assign" and s["p"][0] == 1 and any(e[0] == "field" for e in s["p"][1]):
+                if s["k"] != "assign":
+                    continue
+                into_self = s["p"][0] == 1 and any(e[0] == "field" for e in s["p"][1])
+                if not into_self and any(e[0] == "deref" for e in s["p"][1]):
+                    # a write through a reference obtained from self (`for b in self.nonce.iter_mut() { *b = .. }`)
+                    into_self = 1 in b.slice_back([s["p"][0]])[0]
+                if into_self:
                     locs, calls, _ = b.slice_back([op_place(o)[0] for o in b.operands_of_rvalue(s["rv"]) if op_place(o)])
                     if any(cc.method in ("overflowing_add", "wrapping_add", "checked_add") for (_, cc, _) in calls) or s["rv"]["k"] == "bin":
                         writes = True
